@@ -15,7 +15,8 @@ PROPS = {
     "C10": {"level": "proof", "lemma_files": ENGINE + ["contracts/state_index.py"], "conformance": []},
     "C11": {"level": "proof", "lemma_files": ENGINE + ["contracts/state_index.py", "contracts/codec_laws.py"], "conformance": []},
     "C12": {"level": "proof", "lemma_files": ENGINE + ["contracts/path_laws.py"], "conformance": ["str"]},
-    "C13": {"level": "proof", "lemma_files": ["contracts/path_laws.py"], "conformance": ["str"]},
+    "C13": {"level": "proof", "lemma_files": ["contracts/path_laws.py"], "conformance": ["str"],
+            "bounded": ["contracts.bounded_paths.run"]},
     "C14": {"level": "proof", "lemma_files": ENGINE + ["contracts/state_index.py"], "conformance": []},
     "C15": {"level": "proof", "lemma_files": ENGINE, "conformance": [], "static": ["contracts.static_lock.lock_discipline"]},
     "C16": {"level": "exploration", "lemma_files": ["contracts/provider_laws.py"], "conformance": [], "bounded": ["contracts.bounded_providers.run"],
